@@ -364,6 +364,36 @@ fn main() {
     }
 }
 ''')
+P("C12", "static_ref_root_escape", "E0277|E0599|~not general enough|" + LIFETIME, "a root type that is only well-formed at the brand 'static (&'static Gc<'gc, _>) makes every callback assume 'gc: 'static: a Gc<'static, _> leaves mutate as dyn Any and outlives the arena (no collection method needed)", '''
+use std::any::Any;
+fn main() {
+    #[cfg(bad)]
+    let _escaped: Gc<'static, i32> = {
+        let arena = Arena::<Rootable![&'static Gc<'_, i32>]>::new(|mc| Box::leak(Box::new(Gc::new(mc, 4))));
+        let b: Box<dyn Any> = arena.mutate(|_mc, root| { let g: Gc<'_, i32> = **root; Box::new(g) as Box<dyn Any> });
+        *b.downcast::<Gc<'static, i32>>().unwrap()
+    };
+    #[cfg(not(bad))]
+    let _copied: i32 = {
+        let arena = Arena::<Rootable![Gc<'_, i32>]>::new(|mc| Gc::new(mc, 4));
+        let b: Box<dyn Any> = arena.mutate(|_mc, root| { let g: Gc<'_, i32> = *root; Box::new(*g) as Box<dyn Any> });
+        *b.downcast::<i32>().unwrap()
+    };
+}
+''')
+P("C12", "non_collect_root_with_destructor", "E0277|E0599|~not general enough", "an arena built around a root that is not Collect: such a root may have any Drop impl, and the arena frees every allocation before it drops its root", '''
+struct Plain<'gc> { p: Gc<'gc, i32> }
+impl<'gc> Drop for Plain<'gc> { fn drop(&mut self) { let _v: i32 = *self.p; } }
+#[derive(Collect)]
+#[collect(no_drop)]
+struct Traced<'gc> { p: Gc<'gc, i32> }
+fn main() {
+    #[cfg(bad)]
+    let _arena = Arena::<Rootable![Plain<'_>]>::new(|mc| Plain { p: Gc::new(mc, 4) });
+    #[cfg(not(bad))]
+    let _arena = Arena::<Rootable![Traced<'_>]>::new(|mc| Traced { p: Gc::new(mc, 4) });
+}
+''')
 P("C12", "foreign_lifetime_root", "E0277|E0599|E0521|" + LIFETIME, "a root type mentioning a non-'static foreign lifetime is collected", '''
 fn f<'x>(v: &'x i32) {
     #[cfg(bad)]
